@@ -262,14 +262,15 @@ func (h *mcHandler) OnTick() (time.Duration, Action) {
 // ---- peers -----------------------------------------------------------------------------------
 
 type peer struct {
-	w    *world
-	id   int
-	fd   int
-	got  []byte
-	eof  bool
-	rerr error
-	sent int
-	path string
+	w         *world
+	id        int
+	fd        int
+	got       []byte
+	eof       bool
+	rerr      error
+	sent      int
+	path      string
+	connected bool // set by scenarios that need "has connected and closed" rather than "fd < 0"
 }
 
 func sockPath() string {
